@@ -130,6 +130,23 @@ def run(rep, tier, seed, tr_errors):
     finally:
         zo._adjust_offset, zr._reconstruct, fit_mod._fit_process, kk_exp._cnls_test = orig
         kk_cnls._test_wrapper = orig[3]
+    # many workers: the extension search must not depend on how many processes were asked for (more workers than points of the
+    # first grid is the interesting case: 9 for 10 evaluations, 13 for the default 20)
+    from pyimpspec.analysis.kramers_kronig import evaluate_log_F_ext as elf_many
+    for n_eval, many in ((10, 9), (20, 13)) if tier == "quick" else ((10, 7), (10, 9), (20, 12), (20, 13), (20, 16)):
+        try:
+            one = elf_many(data, test="real", num_F_ext_evaluations=n_eval, num_procs=1)
+            par = elf_many(data, test="real", num_F_ext_evaluations=n_eval, num_procs=many)
+            runs += 2
+            rep.evaluations += 2
+            rep.distinct.add(("evaluate_log_F_ext many workers", n_eval, many))
+            s1 = (float(one[0][0]).hex(), float(one[0][2]).hex(), sorted(float(x[0]).hex() for x in one))
+            s2 = (float(par[0][0]).hex(), float(par[0][2]).hex(), sorted(float(x[0]).hex() for x in par))
+            if s1 != s2:
+                problems.append("evaluate_log_F_ext(num_F_ext_evaluations=%d): num_procs=%d evaluates other extensions or picks another winner than num_procs=1 (log_F_ext %r vs %r)"
+                                % (n_eval, many, float(par[0][0]), float(one[0][0])))
+        except Exception as e:  # noqa
+            problems.append("evaluate_log_F_ext(num_F_ext_evaluations=%d, num_procs=%d) raised %s: %s" % (n_eval, many, type(e).__name__, str(e)[:80]))
     # mock data: bit-identical per seed, different between seeds
     for ident in (["CIRCUIT_1", "CIRCUIT_2"] if tier == "quick" else ["CIRCUIT_1", "CIRCUIT_2", "CIRCUIT_3", "CIRCUIT_4", "CIRCUIT_5"]):
         try:
